@@ -246,9 +246,22 @@ def tbGeodesicInterpolate (A : Arith D) (Am : Ambient S D) (tbProject : σ → S
     let r := tbProject s x
     if r.1 then (some r.2.1, r.2.2) else (g.head?, r.2.2)
 
-/-- `ConstrainedMotionValidator::checkMotion(s1, s2)`:
-`isSatisfied(s2) && discreteGeodesic(s1, s2, false)` (short-circuit). -/
-def checkMotion1 (isSat : σ → S → Bool × σ) (geo : Geo σ S) (s : σ) (s1 s2 : S) : Bool × σ :=
+/-- `ConstrainedMotionValidator::checkMotion(s1, s2)` (after the fix a7ee00eca):
+`si_->isValid(s2) && isSatisfied(s2) && discreteGeodesic(s1, s2, false)` (short-circuit).
+The `valid_`/`invalid_` counters (894715569) are not modelled. -/
+def checkMotion1 (isValid isSat : σ → S → Bool × σ) (geo : Geo σ S) (s : σ) (s1 s2 : S) : Bool × σ :=
+  let v := isValid s s2
+  if v.1 then
+    let a := isSat v.2 s2
+    if a.1 then
+      let r := geo a.2 s1 s2 false
+      (r.1, r.2.2)
+    else (false, a.2)
+  else (false, v.2)
+
+/-- the two-argument form **before** a7ee00eca: `isSatisfied(s2) && discreteGeodesic(s1, s2, false)` —
+the end state itself was never validated.  Kept for `checkMotion_old_accepts_invalid_end`. -/
+def checkMotion1Old (isSat : σ → S → Bool × σ) (geo : Geo σ S) (s : σ) (s1 s2 : S) : Bool × σ :=
   let a := isSat s s2
   if a.1 then
     let r := geo a.2 s1 s2 false
@@ -268,21 +281,31 @@ structure CM2 (σ S D : Type) where
   second : Option D
   st : σ
 
-/-- `ConstrainedMotionValidator::checkMotion(s1, s2, lastValid)`; `hasFirst` is
-`lastValid.first != nullptr`. -/
-def checkMotion2 (A : Arith D) (Am : Ambient S D) (isSat : σ → S → Bool × σ) (geo : Geo σ S)
+/-- `reached && isSatisfied(s2) && si_->isValid(s2)` (short-circuit) -/
+def endStateOk (isSat isValid : σ → S → Bool × σ) (reached : Bool) (s : σ) (s2 : S) : Bool × σ :=
+  if reached then
+    let a := isSat s s2
+    if a.1 then isValid a.2 s2 else (false, a.2)
+  else (false, s)
+
+/-- `ConstrainedMotionValidator::checkMotion(s1, s2, lastValid)` (after a7ee00eca); `hasFirst` is
+`lastValid.first != nullptr`.  `result` is computed *before* the distance loop; on every failure
+`lastValid.second` is written (`total > 0 ? traveled / total : 0`) — also when `lastValid.first` is
+null — and `stateList.back()` is copied into `lastValid.first` when there is one. -/
+def checkMotion2 (A : Arith D) (Am : Ambient S D) (isSat isValid : σ → S → Bool × σ) (geo : Geo σ S)
     (hasFirst : Bool) (s : σ) (s1 s2 : S) : CM2 σ S D :=
   let r := geo s s1 s2 false
   match r.2.1 with
   | [] => ⟨false, if hasFirst then some s1 else none, some A.zero, r.2.2⟩
   | g0 :: rest =>
     let back := (g0 :: rest).getLast (by simp)
-    let sat := isSat r.2.2 s2
-    if r.1 = false && hasFirst then
+    let e := endStateOk isSat isValid r.1 r.2.2 s2
+    if e.1 = false then
       let dt := traveled A Am g0 rest A.zero
-      let remaining := Am.dist back s2
-      ⟨sat.1 && r.1, some back, some (A.div dt (A.add dt remaining)), sat.2⟩
-    else ⟨sat.1 && r.1, none, none, sat.2⟩
+      let total := A.add dt (Am.dist back s2)
+      ⟨false, if hasFirst then some back else none,
+        some (if A.lt A.zero total then A.div dt total else A.zero), e.2⟩
+    else ⟨true, none, none, e.2⟩
 
 /-! ### `ProjectedStateSampler` -/
 
